@@ -1234,8 +1234,16 @@ def method_call(ev, state, node, name):
         if r is not None:
             return r
     if k == 'name':
+        h = NAME_METHODS.get(name)
+        if h is not None:
+            ctx.trusted_used.add(f'str/path method .{name}()')
+            return h(ev, state, node, recv)
         raise Unsupported(f"str method .{name}()")
     raise Unsupported(f"method .{name}() on {T.show(recv.ty)}")
+
+
+NAME_METHODS = {}    # method name -> handler(ev, state, node, recv): trusted models of methods of
+                     # strings / paths used as identifiers (e.g. Path.resolve), registered by pyvc/ext/*
 
 
 def seq_is_untyped(v):
